@@ -4,7 +4,7 @@
 From Coq Require Import List Arith ZArith.
 From EN Require Import Lib.Bytes Frame.Framer Frame.ReadUntil Frame.BufReadUntil Stream.Consumer Stream.SpecDecode
   Frame.Serialize Frame.Convert Frame.JsonRaw Frame.JsonGrammar Frame.ErrSites Frame.Generic
-  Frame.Stapled Gen.ParamsC01 Proofs.C01_stapled Proofs.C07_extra Proofs.C01_generic Proofs.C01_json Proofs.C01_bufsim Proofs.C01_proofs Proofs.Convert_proofs Proofs.BufConvert_proofs Proofs.Fixed_proofs Proofs.BufFixed_proofs Proofs.Serialize_proofs.
+  Frame.Base64 Proofs.Base64_proofs Proofs.C01_base64 Frame.Stapled Gen.ParamsC01 Proofs.C01_stapled Proofs.C07_extra Proofs.C01_generic Proofs.C01_json Proofs.C01_bufsim Proofs.C01_proofs Proofs.Convert_proofs Proofs.BufConvert_proofs Proofs.Fixed_proofs Proofs.BufFixed_proofs Proofs.Serialize_proofs.
 Import ListNotations.
 
 (* Copying consumer (StreamDataConsumer over read_until): for EVERY list of packets valid for the codec, EVERY way of
@@ -260,6 +260,47 @@ Example roundtrip_cut_inside_separator :
     [[65; 65; 13]; [10; 65; 13]; [10; 13]; [10]]%N
   = (@Build_cstate nat (ru_framer crlf 8 false toy_dec) [] None, [RPkt 2; RPkt 1; RPkt 0]).
 Proof. vm_compute. reflexivity. Qed.
+
+(* ---- Base64EncoderSerializer (serializers/wrapper/base64.py; model Frame/Base64.v: RFC 4648 encoder / decoder with
+   padding for both alphabets, optional 32-byte checksum, framing by AutoSeparatedPacketSerializer). *)
+
+(* The codec: decoding inverts encoding on every byte string; the token stays inside the alphabet; its length. *)
+Theorem base64_codec :
+  forall (url : bool) (l : bytes),
+    wf_bytes l ->
+    b64_dec url (b64_enc url l) = Some l
+    /\ Forall (fun c => b64_out url c = true) (b64_enc url l)
+    /\ length (b64_enc url l) = 4 * ((length l + 2) / 3).
+Proof.
+  intros url l H. split; [exact (b64_dec_enc url l H) | split; [exact (b64_enc_alphabet url l H) | exact (b64_enc_length url l)]].
+Qed.
+Print Assumptions base64_codec.
+
+(* The wrapper over ANY inner serializer, both alphabets, with or without checksum (any 32-byte digest function), any
+   separator that begins with a byte outside the base64 alphabet (CR, LF, every whitespace: the shipped default is CRLF):
+   every list of packets the inner serializer round-trips whose tokens fit the limit, every chunking: both consumers
+   return exactly the packets and end holding nothing.  No hypothesis on the tokens: that the separator cannot occur
+   inside a token is proved (b64_frame_ends_at_token). *)
+Theorem base64_wrapper_stream_roundtrip :
+  forall (P : Type) (url : bool) (checksum : option (bytes -> bytes)) (inner_enc : P -> bytes) (inner_dec : decoder P)
+         (h : N) (sep' : bytes) (limit sizehint : nat),
+    (forall hf, checksum = Some hf -> forall d, length (hf d) = 32 /\ wf_bytes (hf d)) ->
+    b64_out url h = false -> length (h :: sep') + 1 <= limit ->
+    let sep := h :: sep' in
+    let enc := b64_serialize url checksum inner_enc in
+    let dec := b64_deserialize url checksum inner_dec in
+    forall (pkts : list P) (chunks : list bytes) (fuel : nat),
+      Forall (fun p => wf_bytes (inner_enc p) /\ inner_dec (inner_enc p) = Some p /\
+                       length (enc p) <= limit - 1 - length sep) pkts ->
+      Forall (fun ch => ch <> []) chunks ->
+      concat chunks = stream sep enc pkts ->
+      length (stream sep enc pkts) < fuel ->
+      cdeliver (ru_framer sep limit false dec) fuel (cinit _) chunks =
+        (@Build_cstate P (ru_framer sep limit false dec) [] None, map RPkt pkts)
+      /\ exists c', bcdeliver (bru_framer sep limit false dec) sizehint fuel (bcinit _) chunks = (c', map RPkt pkts) /\
+                    bcons c' = None /\ balready c' = 0 /\ bexported c' = None.
+Proof. exact Proofs.C01_base64.base64_wrapper_stream_roundtrip_proof. Qed.
+Print Assumptions base64_wrapper_stream_roundtrip.
 
 (* ---- composite serializers (serializers/composite.py).  [stapled_class] is regenerated from the `match` of
    StapledPacketSerializer.__new__ on every run (Gen/ParamsC01.v). *)
